@@ -25,22 +25,22 @@ CLAIMED.update({
     'C01': dict(
         text='Master theorem run_select_eq_spec / C01_select_where_exact: for ALL tables and ALL programs (every expression an arbitrary function of the record) the engine model outputs exactly '
              'the concatenation, in input order, of what each joined record contributes (nothing if WHERE is falsy, one record per UNNEST element, otherwise its projection), by a bridge theorem main-loop <-> '
-             'emissions and a chain-algebra theorem. The real rbql.query is tied on every <=2x2 table over {None,"",x,"x;y"} x a battery of item-kind combinations plus seeded random cases, including error outcomes.',
+             'emissions and a chain-algebra theorem. The real rbql.query is tied on every <=2x2 table over {None,"",x,"x;y"} x a battery of item-kind combinations plus seeded random cases, including error outcomes; the cases lying in the common Python/JS class are also run on the REAL rbql-js engine.',
         note='Trusted: Lean kernel + standard axioms; evaluation of user expressions by CPython (opaque functions in the theorems); the model/engine tie is the correspondence.',
         ref='DESIGN.md section 7, C01'),
     'C02': dict(
         text='C02_sort_dedup_truncate: for every chain shape the engine model outputs take-n(dedup(stable-sort(emissions))); C02_bound_is_take; first-occurrence and multiplicity lemmas; writer protocol. '
-             'Real engine tied on tie-heavy tables x all clause combinations with the pulled-record count observed, plus metamorphic oracles (bound = prefix, DESC = reverse) and a never-ending iterator.',
+             'Real engine tied on tie-heavy tables x all clause combinations with the pulled-record count observed, plus metamorphic oracles (bound = prefix, DESC = reverse) and a never-ending iterator; common-class cases also on the real rbql-js engine.',
         note='Hypotheses: comparable ORDER BY keys, hashable DISTINCT rows, no failing evaluation for the unbounded query. Stable-sort properties and the early-stop (tail irrelevance) theorem are in Proofs/OrderAndStop.lean when present.',
         ref='DESIGN.md section 7, C02'),
     'C04': dict(
         text='C04_lookup_eq_filter: the hash-join map equals filtering B by key (B order, record numbers, null-record width) for ALL tables and key lists; expansion lemmas for INNER/LEFT/STRICT; '
-             'downstream clauses and UPDATE see the expansion (run = spec over expandRecord). Real engine tied on duplicate-key / empty / ragged table pairs x five join keywords x 1..3 key pairs incl. NR/bNR.',
+             'downstream clauses and UPDATE see the expansion (run = spec over expandRecord). Real engine tied on duplicate-key / empty / ragged table pairs x five join keywords x 1..3 key pairs incl. NR/bNR, headered tables with EMPTY / partner-less join tables (null record as wide as the join header, C04_null_width; defect D18 fixed); common-class cases also on the real rbql-js engine.',
         note='Trusted: Lean kernel + standard axioms; Python == on keys modelled as structural equality of values.',
         ref='DESIGN.md section 7, C04'),
     'C05': dict(
         text='C05_update_refines_spec (run = updateSpec incl. the error reported), same length/order/width, unchanged when WHERE false or no partner, only assigned fields change, right-hand sides see the original '
-             'record (simultaneous assignment; swap), NU counts updated records, missing field names the record. KNOWN FINDING D14: UPDATE ... LEFT JOIN updates partner-less records (counterexample theorem; pinned witness).',
+             'record (simultaneous assignment; swap), NU counts updated records, missing field names the record. KNOWN FINDING D14: UPDATE ... LEFT JOIN updates partner-less records (counterexample theorem; pinned witness). Common-class cases also on the real rbql-js engine.',
         note='Trusted: Lean kernel + standard axioms. The property is false of the code for LEFT JOIN (D14, recorded in known_findings.json, not repaired).',
         ref='DESIGN.md section 7, C05'),
     'C14': dict(
@@ -52,7 +52,7 @@ CLAIMED.update({
     'C03': dict(
         text='C03_one_row_per_key_sorted (run = aggRowsSpec: one row per distinct key among passing records, ascending, TOP applied) by a bridge theorem for the aggregate branch of the main loop; every accumulator '
              'proved equal to the mathematical aggregate of its group in input order (COUNT, SUM, MIN/MAX as true extrema, AVG, population VARIANCE = mean squared deviation, MEDIAN, ARRAY_AGG order, ANY_VALUE first), '
-             'non-constant column fails iff two distinct values incl. None, builtin dispatch decision table. Real engine tied on grouped numeric tables with exact rational comparison, plus a direct check of min/max/sum dispatch.',
+             'non-constant column fails iff two distinct values incl. None, builtin dispatch decision table. Real engine tied on grouped numeric tables with exact rational comparison, plus a direct check of min/max/sum dispatch; numeric pools around zero (zero / negative / tiny) and the common-class cases also on the real rbql-js engine.',
         note='Hypotheses: homogeneous numeric arguments (numeric strings of -?d+(.d+)? or numbers), comparable keys; IEEE rounding outside the model (values recovered as exact rationals).',
         ref='DESIGN.md section 7, C03'),
     'C15': dict(
